@@ -278,19 +278,37 @@ def main():
     confirmations = {}
     if suspects and timeout_ms < CONFIRM_BUDGET_MS:
         for (modname, fname), names in suspects.items():
-            os.environ["PYVC_ONLY_OBLIGATIONS"] = json.dumps(sorted(names))
-            try:
-                reps2, _ = run_proofs([modname], CONFIRM_BUDGET_MS, a.jobs, only=[fname])
-            finally:
-                os.environ.pop("PYVC_ONLY_OBLIGATIONS", None)
-            for r2 in reps2:
-                if r2["function"] != fname:
-                    continue
-                st2 = {}
-                for o2 in r2.get("obligations", []):
-                    st2.setdefault(o2["name"], []).append(o2["status"])
-                for n in names:
-                    confirmations[(fname, n)] = st2.get(n, ["missing"])
+            # fresh processes (z3's instantiation order depends on the state of the process it runs in) and up to three
+            # solver seeds; an obligation counts as proved if any attempt proves every instance of it
+            pending = set(names)
+            for seed in (0, 7, 23):
+                if not pending:
+                    break
+                outf = os.path.join(os.environ["VERIF_WORK"], f"confirm_{prop}_{os.getpid()}_{seed}.json")
+                env = dict(os.environ, PYVC_ONLY_OBLIGATIONS=json.dumps(sorted(pending)), PYVC_TIMEOUT_MS=str(CONFIRM_BUDGET_MS),
+                           PYVC_Z3_SEED=str(seed), PROVE_ONLY_OUT=outf, PYTHONPATH=ROOT)
+                env.pop("PYVC_GEN_CAP_MS", None)
+                subprocess.run([sys.executable, os.path.join(ROOT, "tools", "prove_only.py"), modname, fname],
+                               env=env, capture_output=True, text=True, cwd=ROOT)
+                try:
+                    reps2 = json.load(open(outf))
+                    os.unlink(outf)
+                except Exception:  # noqa
+                    reps2 = []
+                for r2 in reps2:
+                    if r2["function"] != fname:
+                        continue
+                    st2 = {}
+                    for o2 in r2.get("obligations", []):
+                        st2.setdefault(o2["name"], []).append(o2["status"])
+                    for n in list(pending):
+                        if st2.get(n) and all(x == "proved" for x in st2[n]):
+                            confirmations[(fname, n)] = ["proved"]
+                            pending.discard(n)
+            for n in pending:
+                confirmations[(fname, n)] = ["not-proved"]
+            if os.environ.get("VERIF_DEBUG"):
+                print("confirmation pass", fname, {n: confirmations[(fname, n)] for n in names}, file=sys.stderr)
         for r in reps:
             for o in r.get("obligations", []):
                 k = (r["function"], o["name"])
